@@ -9,6 +9,7 @@ from .a_tasks import T, TASK, TC, calls, exts, flat, index_of, trivial_loop
 from .spec import b2z, implies
 
 B = z3.BoolVal
+LEGACY_EXTRA = MapT('Str', Any)
 resp_get = z3.Function('resp_get', U, z3.StringSort(), U)
 
 
@@ -116,7 +117,7 @@ def register(R):
     L = 's3transfer:MultipartUploader'
     R.add_fields(L, _client=ExtT('client'), _config=ExtT('config'), _os=ExtT('osutil'), _executor_cls=ExtT('executor_cls'))
     R.contract(f'{L}._upload_parts', params=dict(upload_id=ExtT('upload_id'), filename=ExtT('str'), bucket=ExtT('str'),
-                                                 key=ExtT('str'), callback=Any, extra_args=ExtT('kwargs')),
+                                                 key=ExtT('str'), callback=Any, extra_args=LEGACY_EXTRA),
                returns=ExtT('parts'), raise_when={'Exception': lambda c: None})
 
     def legacy_common(c):
@@ -127,9 +128,37 @@ def register(R):
         got_id = len(cr) == 1 and cr[0].extra.get('raised') is None
         return tr, cr, ab, cm, got_id
 
+    def filtered_as(c, ev, name):
+        """the **kwargs of client event ev are the user's extra_args restricted to the class constant `name`."""
+        from .b_legacy import legacy_const
+        from .c15 import map_view
+        allowed = legacy_const(c.engine, name)
+        ep, evs = map_view(c.old.st, c.a_extra_args)
+        sp = ev.extra.get('splat')
+        kk = z3.String('kk_')
+        if sp is None:
+            return z3.ForAll([kk], z3.Not(z3.And(z3.Select(ep, kk), z3.Or([kk == z3.StringVal(a) for a in allowed] + [B(False)]))))
+        return z3.ForAll([kk], z3.And(
+            z3.Select(sp['present'], kk) == z3.And(z3.Select(ep, kk), z3.Or([kk == z3.StringVal(a) for a in allowed] + [B(False)])),
+            z3.Implies(z3.Select(sp['present'], kk), z3.Select(sp['vals'], kk) == z3.Select(evs, kk))))
+
+    def legacy_arg_checks(c, cr, ab, cm):
+        from .b_legacy import splat_has
+        up = calls(c.trace, 'MultipartUploader._upload_parts')
+        out = {
+            'create_gets_the_users_extra_args': (B(len(cr) == 1 and splat_has(cr[0], c.old.st, c.a_extra_args)), ['C15']),
+            'part_uploads_get_the_users_extra_args': (B(all(e.extra['env']['extra_args'] is c.a_extra_args for e in up)), ['C15']),
+        }
+        for i, e in enumerate(cm):
+            out[f'complete_gets_exactly_COMPLETE_MULTIPART_ARGS_of_the_users_extra_args.{i}'] = (filtered_as(c, e, 'COMPLETE_MULTIPART_ARGS'), ['C15'])
+        for i, e in enumerate(ab):
+            out[f'abort_gets_exactly_ABORT_MULTIPART_ARGS_of_the_users_extra_args.{i}'] = (filtered_as(c, e, 'ABORT_MULTIPART_ARGS'), ['C15'])
+        return out
+
     def legacy_checks(c):
         tr, cr, ab, cm, got_id = legacy_common(c)
         return {
+            **legacy_arg_checks(c, cr, ab, cm),
             'success_means_completed_once_never_aborted': B(got_id and len(cm) == 1 and cm[0].extra.get('raised') is None and not ab),
             'complete_uses_received_id': B(len(cm) == 1 and len(cr) == 1 and isinstance(cm[0].kwargs.get('UploadId'), Opaque)
                                            and z3.eq(cm[0].kwargs['UploadId'].term, resp_get(cr[0].result.term, z3.StringVal('UploadId')))),
@@ -139,6 +168,7 @@ def register(R):
         tr, cr, ab, cm, got_id = legacy_common(c)
         completed = [e for e in cm if e.extra.get('raised') is None]
         return {
+            **legacy_arg_checks(c, cr, ab, cm),
             'failure_after_id_received_aborts_that_upload': B(
                 (not got_id) or (len(ab) >= 1 and isinstance(ab[-1].kwargs.get('UploadId'), Opaque) and z3.eq(
                     ab[-1].kwargs['UploadId'].term, resp_get(cr[0].result.term, z3.StringVal('UploadId'))))),
@@ -147,8 +177,8 @@ def register(R):
         }
 
     R.contract(
-        f'{L}.upload_file', props=['C05'],
-        params=dict(filename=ExtT('str'), bucket=ExtT('str'), key=ExtT('str'), callback=Any, extra_args=ExtT('kwargs')),
+        f'{L}.upload_file', props=['C05', 'C15'],
+        params=dict(filename=ExtT('str'), bucket=ExtT('str'), key=ExtT('str'), callback=Any, extra_args=LEGACY_EXTRA),
         checks=legacy_checks,
         raises={'Exception': legacy_raises},
     )
